@@ -564,9 +564,19 @@ class SymInt:
         return SymInt._mk(-self.z)
 
     def __truediv__(self, o):
+        if isinstance(o, (SymInt, int)) and not isinstance(o, bool):
+            # int / int is a float in Python: outside the exact fragment, the path is concretised
+            oz = SymInt._l(o)
+            if E.branch(oz == 0):
+                raise ZeroDivisionError('division by zero (symbolic)')
+            return E.concretise_float(z3.ToReal(self.z) / z3.ToReal(oz))
         return SymDec(z3.ToReal(self.z)).__truediv__(o)
 
     def __rtruediv__(self, o):
+        if isinstance(o, int) and not isinstance(o, bool):
+            if E.branch(self.z == 0):
+                raise ZeroDivisionError('division by zero (symbolic)')
+            return E.concretise_float(z3.RealVal(o) / z3.ToReal(self.z))
         return SymDec(z3.ToReal(self.z)).__rtruediv__(o)
 
     def _divmod(self, a, b):
@@ -833,6 +843,8 @@ def install(engine):
             E.stub('Decimal(fraction)')
             if E.branch(E.fresh_bool('decimal_repr')):
                 return SymDec(z)
+            # not representable: in particular not a decimal with up to 30 fractional digits
+            E._add(z3.Not(z3.IsInt(z * (10 ** 30))))
             raise ValueError("Can't convert symbolic fraction exactly to Decimal.")
         if isinstance(precision, SymInt):
             precision = E.concretise(precision)
